@@ -9,6 +9,35 @@ open Lena.Flow (Value)
 
 variable {σ S C : Type}
 
+/-! ## the tests of the driver decide `SchedOK` / `FillOK` -/
+
+theorem listEqb_iff {α : Type} (eq : α → α → Bool) (h : ∀ a b, eq a b = true ↔ a = b) :
+    ∀ l m : List α, listEqb eq l m = true ↔ l = m
+  | [], [] => by simp [listEqb]
+  | [], _ :: _ => by simp [listEqb]
+  | _ :: _, [] => by simp [listEqb]
+  | a :: l, b :: m => by simp [listEqb, h, listEqb_iff eq h l m]
+
+theorem itemEqb_iff (eqS : S → S → Bool) (h : ∀ a b, eqS a b = true ↔ a = b) (x y : Item S) :
+    itemEqb eqS x y = true ↔ x = y := by
+  cases x; cases y
+  simp [itemEqb, h]
+
+/-- the test decides `SchedOK` when `eqS` decides equality -/
+theorem schedOKb_iff (eqS : S → S → Bool) (h : ∀ a b, eqS a b = true ↔ a = b) (i : Nat)
+    (e : List (Item S) × List (Item S) × Bool) : schedOKb eqS i e = true ↔ SchedOK i e := by
+  obtain ⟨bl, buf, c⟩ := e
+  simp only [schedOKb, SchedOK, Bool.and_eq_true, Bool.or_eq_true, listEqb_iff eqS h,
+    listEqb_iff (itemEqb eqS) (itemEqb_iff eqS h), Bool.not_eq_true', List.all_eq_true, beq_iff_eq]
+  cases c <;> simp [and_assoc]
+
+theorem fillOKb_iff (eqS : S → S → Bool) (h : ∀ a b, eqS a b = true ↔ a = b) (i : Nat)
+    (e : Item S × Item S × Bool) : fillOKb eqS i e = true ↔ FillOK i e := by
+  obtain ⟨x, y, c⟩ := e
+  simp only [fillOKb, FillOK, Bool.and_eq_true, Bool.or_eq_true, h, itemEqb_iff eqS h, Bool.not_eq_true',
+    List.all_eq_true, beq_iff_eq]
+  cases c <;> simp [and_assoc]
+
 /-- every context yielded in a history is new, for an accumulator in the general form `FreshYieldG` -/
 theorem hist_fresh_G (ops : Ops σ S C) (Inv : σ → Prop) (Old : σ → Tok → Prop) (hF : FreshYieldG ops Inv Old) :
     ∀ (h : List (HOp σ S C)) (st : Store C) (s : σ), Inv s →
